@@ -619,7 +619,17 @@ func checkImage(w *World, img *imageRec, ops []Op, states []*Readout, vols []map
 	// a batch in flight is recovered as a prefix of its items
 	if op := ops[img.op]; op.K == "addbatch" {
 		gap := false
+		prevVecs := map[string]bool{}
+		for k := lo; k <= img.op && k < len(states); k++ {
+			_, vs, _ := flatten(states[k])
+			for x := range vs {
+				prevVecs[x] = true
+			}
+		}
 		for _, it := range op.Items {
+			if prevVecs["vec|"+op.Idx+"|"+it.ID] {
+				continue // the id was there before this batch (e.g. its delete was not durable yet)
+			}
 			_, present := gv["vec|"+op.Idx+"|"+it.ID]
 			if !present {
 				gap = true
